@@ -364,3 +364,48 @@ func zzH_C05_oscSplit() {
 	verifAssert(len(in.got) == 0, "wrapper wrote to the remote side on its own")
 	verifReach("osc-split")
 }
+
+
+// zzEOFFeed5: a reader that hands out its chunks and ends with io.EOF, either together with the last chunk or on its
+// own afterwards (both are allowed by the io.Reader contract)
+type zzEOFFeed5 struct {
+	chunks   [][]byte
+	i        int
+	together bool
+}
+
+func (r *zzEOFFeed5) Read(p []byte) (int, error) {
+	if r.i >= len(r.chunks) {
+		return 0, io.EOF
+	}
+	n := copy(p, r.chunks[r.i])
+	r.i++
+	if r.together && r.i == len(r.chunks) {
+		return n, io.EOF
+	}
+	return n, nil
+}
+
+// the input pump itself (wrapInput): typed bytes in one or two reads up to the end of the input, the end reported
+// together with the last bytes or separately — every byte reaches the remote side, then its input is closed
+func zzH_C05_inPump() {
+	l := verifBound("L")
+	chunk := make([]byte, l)
+	for i := range chunk {
+		chunk[i] = verifNondetByte()
+	}
+	want := make([]byte, l)
+	copy(want, chunk)
+	chunks := [][]byte{chunk}
+	cut := verifNondetRange(1, l)
+	if cut < l {
+		chunks = [][]byte{chunk[:cut], chunk[cut:]}
+	}
+	out, in := &zzCap5{}, &zzCap5{}
+	f := &TrzszFilter{clientOut: out, serverIn: in, clientIn: &zzEOFFeed5{chunks: chunks, together: verifNondetBool()}}
+	f.options.EnableZmodem = verifNondetBool()
+	f.wrapInput()
+	zzSame5(in.got, want, "to remote")
+	verifAssert(len(out.got) == 0, "typed input echoed locally by the wrapper")
+	verifReach("pumped")
+}
